@@ -8,7 +8,7 @@ namespace Babylon.Exec
 open Babylon.Core
 
 /-- closing tactic for the place goals -/
-macro "p_close" : tactic => `(tactic| (
+macro "p_close_F" : tactic => `(tactic| (
   (try simp only [exec_proj, upd_same, Q.claim_fold, Q.bump_fold] at *)
   first
     | done
@@ -53,22 +53,21 @@ theorem Inv3.step_t1 (I : Inv1 c s) (J : Inv2 c s) (K : Inv3 c s) (h : StepCase 
     have hc3 : i0 < (s.l k0).cells.length := Q.stAt_some_lt _ _ _ hc2
     rw [hidx] at hc1; rw [hfull] at hc2
     clear hcell l4
-    cases ctx <;> simp only [hidx] at * <;> p_close
+    cases ctx <;> simp only [hidx] at * <;> p_close_F
   case wRecv i0 cl hpc hcell hfull =>
     have hc1 := Q.itemAt_eq _ _ _ hcell
     have hc2 := Q.stAt_eq _ _ _ hcell
     have hc3 : i0 < s.g.cells.length := Q.stAt_some_lt _ _ _ hc2
     rw [hfull] at hc2
     clear hcell l4
-    cases hx : cl.item <;> simp only [hx] at * <;> p_close
+    cases hx : cl.item <;> simp only [hx] at * <;> p_close_F
   case gPublish p k hpc hfree hst =>
     have hc3 : p < s.g.cells.length := Q.stAt_some_lt _ _ _ hst
-    clear l4; p_close
+    clear l4; p_close_F
   case rLPub id0 cid p k0 hpc hown hfree hst =>
     have hc3 : p < (s.l k0).cells.length := Q.stAt_some_lt _ _ _ hst
-    clear l4; p_close
-  all_goals (clear l4; try p_close)
-  all_goals (trace_state; sorry)
+    clear l4; p_close_F
+  all_goals (clear l4; try p_close_F)
 
 set_option maxHeartbeats 4000000 in
 theorem Inv3.step_t2 (I : Inv1 c s) (J : Inv2 c s) (K : Inv3 c s) (h : StepCase c s t lb s') :
@@ -102,22 +101,21 @@ theorem Inv3.step_t2 (I : Inv1 c s) (J : Inv2 c s) (K : Inv3 c s) (h : StepCase 
     have hc3 : i0 < (s.l k0).cells.length := Q.stAt_some_lt _ _ _ hc2
     rw [hidx] at hc1; rw [hfull] at hc2
     clear hcell l4
-    cases ctx <;> simp only [hidx] at * <;> p_close
+    cases ctx <;> simp only [hidx] at * <;> p_close_F
   case wRecv i0 cl hpc hcell hfull =>
     have hc1 := Q.itemAt_eq _ _ _ hcell
     have hc2 := Q.stAt_eq _ _ _ hcell
     have hc3 : i0 < s.g.cells.length := Q.stAt_some_lt _ _ _ hc2
     rw [hfull] at hc2
     clear hcell l4
-    cases hx : cl.item <;> simp only [hx] at * <;> p_close
+    cases hx : cl.item <;> simp only [hx] at * <;> p_close_F
   case gPublish p k hpc hfree hst =>
     have hc3 : p < s.g.cells.length := Q.stAt_some_lt _ _ _ hst
-    clear l4; p_close
+    clear l4; p_close_F
   case rLPub id0 cid p k0 hpc hown hfree hst =>
     have hc3 : p < (s.l k0).cells.length := Q.stAt_some_lt _ _ _ hst
-    clear l4; p_close
-  all_goals (clear l4; try p_close)
-  all_goals (trace_state; sorry)
+    clear l4; p_close_F
+  all_goals (clear l4; try p_close_F)
 
 set_option maxHeartbeats 4000000 in
 theorem Inv3.step_t3a (I : Inv1 c s) (J : Inv2 c s) (K : Inv3 c s) (h : StepCase c s t lb s') :
@@ -155,7 +153,7 @@ theorem Inv3.step_t3a (I : Inv1 c s) (J : Inv2 c s) (K : Inv3 c s) (h : StepCase
     rw [hidx] at hc1; rw [hfull] at hc2
     have hb2 : s.loc idx = .lq k0 i0 := b2 k0 i0 idx hc1 (by rw [hc2]; simp)
     clear hcell l4
-    cases ctx <;> simp only [hidx] at * <;> p_close
+    cases ctx <;> simp only [hidx] at * <;> p_close_F
   case wRecv i0 cl hpc hcell hfull =>
     have hc1 := Q.itemAt_eq _ _ _ hcell
     have hc2 := Q.stAt_eq _ _ _ hcell
@@ -164,15 +162,14 @@ theorem Inv3.step_t3a (I : Inv1 c s) (J : Inv2 c s) (K : Inv3 c s) (h : StepCase
     have hb1 : ∀ idx, cl.item = .task idx → s.loc idx = .gq i0 := by
       intro idx hx; rw [hx] at hc1; exact b1 i0 idx hc1 (by rw [hc2]; simp)
     clear hcell l4
-    cases hx : cl.item <;> simp only [hx] at * <;> p_close
+    cases hx : cl.item <;> simp only [hx] at * <;> p_close_F
   case gPublish p k hpc hfree hst =>
     have hc3 : p < s.g.cells.length := Q.stAt_some_lt _ _ _ hst
-    clear l4; p_close
+    clear l4; p_close_F
   case rLPub id0 cid p k0 hpc hown hfree hst =>
     have hc3 : p < (s.l k0).cells.length := Q.stAt_some_lt _ _ _ hst
-    clear l4; p_close
-  all_goals (clear l4; try p_close)
-  all_goals (trace_state; sorry)
+    clear l4; p_close_F
+  all_goals (clear l4; try p_close_F)
 
 set_option maxHeartbeats 4000000 in
 theorem Inv3.step_t3b (I : Inv1 c s) (J : Inv2 c s) (K : Inv3 c s) (h : StepCase c s t lb s') :
@@ -208,22 +205,21 @@ theorem Inv3.step_t3b (I : Inv1 c s) (J : Inv2 c s) (K : Inv3 c s) (h : StepCase
     have hc3 : i0 < (s.l k0).cells.length := Q.stAt_some_lt _ _ _ hc2
     rw [hidx] at hc1; rw [hfull] at hc2
     clear hcell l4
-    cases ctx <;> simp only [hidx] at * <;> p_close
+    cases ctx <;> simp only [hidx] at * <;> p_close_F
   case wRecv i0 cl hpc hcell hfull =>
     have hc1 := Q.itemAt_eq _ _ _ hcell
     have hc2 := Q.stAt_eq _ _ _ hcell
     have hc3 : i0 < s.g.cells.length := Q.stAt_some_lt _ _ _ hc2
     rw [hfull] at hc2
     clear hcell l4
-    cases hx : cl.item <;> simp only [hx] at * <;> p_close
+    cases hx : cl.item <;> simp only [hx] at * <;> p_close_F
   case gPublish p k hpc hfree hst =>
     have hc3 : p < s.g.cells.length := Q.stAt_some_lt _ _ _ hst
-    clear l4; p_close
+    clear l4; p_close_F
   case rLPub id0 cid p k0 hpc hown hfree hst =>
     have hc3 : p < (s.l k0).cells.length := Q.stAt_some_lt _ _ _ hst
-    clear l4; p_close
-  all_goals (clear l4; try p_close)
-  all_goals (trace_state; sorry)
+    clear l4; p_close_F
+  all_goals (clear l4; try p_close_F)
 
 set_option maxHeartbeats 4000000 in
 theorem Inv3.step_t3c (I : Inv1 c s) (J : Inv2 c s) (K : Inv3 c s) (h : StepCase c s t lb s') :
@@ -264,22 +260,21 @@ theorem Inv3.step_t3c (I : Inv1 c s) (J : Inv2 c s) (K : Inv3 c s) (h : StepCase
     rw [hidx] at hc1; rw [hfull] at hc2
     have hb2 : s.loc idx = .lq k0 i0 := b2 k0 i0 idx hc1 (by rw [hc2]; simp)
     clear hcell l4
-    cases ctx <;> simp only [hidx] at * <;> p_close
+    cases ctx <;> simp only [hidx] at * <;> p_close_F
   case wRecv i0 cl hpc hcell hfull =>
     have hc1 := Q.itemAt_eq _ _ _ hcell
     have hc2 := Q.stAt_eq _ _ _ hcell
     have hc3 : i0 < s.g.cells.length := Q.stAt_some_lt _ _ _ hc2
     rw [hfull] at hc2
     clear hcell l4
-    cases hx : cl.item <;> simp only [hx] at * <;> p_close
+    cases hx : cl.item <;> simp only [hx] at * <;> p_close_F
   case gPublish p k hpc hfree hst =>
     have hc3 : p < s.g.cells.length := Q.stAt_some_lt _ _ _ hst
-    clear l4; p_close
+    clear l4; p_close_F
   case rLPub id0 cid p k0 hpc hown hfree hst =>
     have hc3 : p < (s.l k0).cells.length := Q.stAt_some_lt _ _ _ hst
-    clear l4; p_close
-  all_goals (clear l4; try p_close)
-  all_goals (trace_state; sorry)
+    clear l4; p_close_F
+  all_goals (clear l4; try p_close_F)
 
 end
 end Babylon.Exec
